@@ -3,6 +3,7 @@ import MosnVerif.Lemmas.Dubbo
 import MosnVerif.Lemmas.DubboThrift
 import MosnVerif.Lemmas.Tars
 import MosnVerif.Lemmas.HttpUri
+import MosnVerif.Lemmas.Relay
 /-!
 # C01 — forwarding fidelity (property theorems only)
 
@@ -356,5 +357,55 @@ example : HttpUri.buildUrl exOracles (HttpUri.inject exOracles "/a//%2Fb" "x=1&y
 example : HttpUri.buildUrl exOracles (HttpUri.rewrite (HttpUri.inject exOracles "/a//%2Fb" "") "/new") = "/new!" := by decide
 -- negation witness for the unrestricted statement: "/a?" is forwarded as "/a"
 example : HttpUri.buildUrl exOracles (HttpUri.inject exOracles "/a" "") ≠ HttpUri.expected "/a" true "" := by decide
+
+/-! ## TCP relay (streamproxy): two FIFO write queues with close-with-flush -/
+
+/-- **relay_stream_preserved**: for *every* schedule of the two read loops and the two write loops (any interleaving,
+any chunking, any number of steps), in both directions:
+* what MOSN has written to one peer is a prefix of what it has read from the other — nothing invented, reordered or
+  duplicated;
+* as long as the receiving peer has not gone away itself, nothing is lost: written ++ still-queued = read;
+* hence once the queue has drained — in particular after the sender closed immediately after its last write, which only
+  appends an EOF marker *behind* the data — the receiver has got every byte. -/
+theorem relay_stream_preserved (evs : List Relay.Ev) (d : Relay.Side) :
+    let s := Relay.run {} evs
+    (∃ x, (s.get d.other).sent ++ x = (s.get d).received) ∧
+    ((s.get d.other).eofSeen = false →
+      (s.get d.other).sent ++ Relay.pending (s.get d.other).wq = (s.get d).received) ∧
+    ((s.get d.other).eofSeen = false → (s.get d.other).wq = [] → (s.get d.other).sent = (s.get d).received) := by
+  intro s
+  have hI : Relay.Dir (s.get d) (s.get d.other) :=
+    Relay.run_inv evs {} ((Relay.inv_iff {}).mp Relay.inv_init) d
+  have hna : (s.get d.other).eofSeen = false → (s.get d.other).aborted = false := by
+    intro he
+    cases ha : (s.get d.other).aborted with
+    | false => rfl
+    | true => have := hI.abort_cause ha; rw [he] at this; cases this
+  refine ⟨?_, fun he => hI.full (hna he), fun he hq => ?_⟩
+  · obtain ⟨x, hx⟩ := hI.safe
+    exact ⟨Relay.pending (s.get d.other).wq ++ x, by rw [← hx]; simp [List.append_assoc]⟩
+  · have := hI.full (hna he)
+    rw [hq] at this
+    simpa [Relay.pending] using this
+
+/-- a connection MOSN closed by flushing was closed only after the other peer's EOF, with an empty queue: everything the
+peer sent before closing was written first -/
+theorem relay_flush_before_close (evs : List Relay.Ev) (d : Relay.Side) :
+    let s := Relay.run {} evs
+    (s.get d.other).closed = true → (s.get d.other).aborted = false →
+      (s.get d).eofSeen = true ∧ (s.get d.other).sent = (s.get d).received := by
+  intro s hc ha
+  have hI : Relay.Dir (s.get d) (s.get d.other) :=
+    Relay.run_inv evs {} ((Relay.inv_iff {}).mp Relay.inv_init) d
+  refine ⟨hI.flushed hc ha, ?_⟩
+  have := hI.full ha
+  rw [hI.closed_empty hc] at this
+  simpa [Relay.pending] using this
+
+-- the client writes "ab", "c" and closes at once; the upstream write loop runs afterwards: all three bytes, then the close
+example : (let s := Relay.run {} [.read .down [0x61, 0x62], .read .down [0x63], .peerClosed .down, .write .up, .write .up, .write .up]
+    (s.up.sent, s.up.closed, s.up.aborted, s.down.closed)) = ([0x61, 0x62, 0x63], true, false, true) := by decide
+-- the upstream answers while the client is still open; the answer reaches the client
+example : (Relay.run {} [.read .down [1], .write .up, .read .up [7, 8], .write .down, .peerClosed .up, .write .down]).down.sent = [7, 8] := by decide
 
 end MosnVerif.Props.C01
